@@ -1,5 +1,7 @@
 SPECIFICATION TraceSpec
 CONSTANTS
+  CodeUnanchored = FALSE
+  CodeNoRange = FALSE
   FormatIds = {1}
   Zones = {"UTC", "Asia/Kolkata", "America/Los_Angeles", "America/New_York"}
   PathIds = {1}
